@@ -224,7 +224,7 @@ next:		;
 }
 
 int main(int argc, char **argv) {
-	h_init(); h_set_init(&absstates, 1 << 10); if (argc < 5) return 2;
+	h_init(); h_watchdog(5, 12);	/* 60 s of CPU inside one element = the call under test does not return */ h_set_init(&absstates, 1 << 10); if (argc < 5) return 2;
 	int thorough = !strcmp(argv[2], "thorough"); sh = atoi(argv[3]); nsh = atoi(argv[4]);
 	for (size_t i = 0; i < sizeof cdata; i++) cdata[i] = "abcabcabd-xyz"[i % 13] ^ (uint8_t)(i / 90);
 	if (!strcmp(argv[1], "packets")) {
